@@ -36,6 +36,10 @@ Eval(e, en) ==
     [] e.k = "mul" -> ((IF e.l.k = "const" THEN e.l.n ELSE en[e.l.v]) * (IF e.r.k = "const" THEN e.r.n ELSE en[e.r.v])) % Mod
 
 Simple == [k : {"set"}, v : Vars, e : Expr] \cup [k : {"inc", "dec"}, v : Vars] \cup [k : {"out"}, o : Outs, e : Expr]
+\* v, w = e, f : both right-hand sides are evaluated before either variable is assigned
+TopAtom == [k : {"var"}, v : TopVars]
+Tuple == {t \in [k : {"tuple"}, v : TopVars, w : TopVars, e : TopAtom \cup [k : {"add"}, l : TopAtom, r : TopAtom],
+                                                           f : TopAtom \cup [k : {"add"}, l : TopAtom, r : TopAtom]] : t.v # t.w}
 \* if l == r { t } else { f }  with single simple statements in the branches
 SmallConst == [k : {"const"}, n : {0, 1, 2}]
 VarAtom == [k : {"var"}, v : Vars]
@@ -48,6 +52,7 @@ Do(s, en, os) ==
     [] s.k = "inc" -> [env |-> [en EXCEPT ![s.v] = (@ + 1) % Mod], outs |-> os]
     [] s.k = "dec" -> [env |-> [en EXCEPT ![s.v] = (@ + Mod - 1) % Mod], outs |-> os]
     [] s.k = "out" -> [env |-> en, outs |-> Append(os, <<s.o, Eval(s.e, en)>>)]
+    [] s.k = "tuple" -> [env |-> [en EXCEPT ![s.v] = Eval(s.e, en), ![s.w] = Eval(s.f, en)], outs |-> os]
 
 Init == prog = <<>> /\ env = [v \in Vars |-> 0] /\ outs = <<>> /\ declared = TopVars /\ iter = 1
 
@@ -55,6 +60,7 @@ Init == prog = <<>> /\ env = [v \in Vars |-> 0] /\ outs = <<>> /\ declared = Top
 AtomVars(e) == IF e.k = "var" THEN {e.v} ELSE {}
 ExprVars(e) == IF e.k \in {"add", "mul"} THEN AtomVars(e.l) \cup AtomVars(e.r) ELSE AtomVars(e)
 StmtVars(s) == CASE s.k = "set" -> {s.v} \cup ExprVars(s.e) [] s.k \in {"inc", "dec"} -> {s.v} [] s.k = "out" -> ExprVars(s.e)
+                 [] s.k = "tuple" -> {s.v, s.w} \cup ExprVars(s.e) \cup ExprVars(s.f)
                  [] s.k = "ifeq" -> AtomVars(s.l) \cup AtomVars(s.r) \cup (IF s.t.k = "out" THEN ExprVars(s.t.e) ELSE {s.t.v})
                                     \cup (IF s.f.k = "out" THEN ExprVars(s.f.e) ELSE {s.f.v})
 Allowed(s) == StmtVars(s) \subseteq declared /\ (NoAssign => s.k \in {"inc", "dec", "out"})
@@ -92,10 +98,11 @@ Again ==
 
 \* (written with an outer choice so that the simulator, which picks uniformly among the
 \* sub-actions it can split Next into, chooses an if statement about once in four steps)
-Next == \E w \in 1 .. 6 :
+Next == \E w \in 1 .. 7 :
           IF Len(prog) = MaxLen THEN (w = 1 /\ Again)
           ELSE IF w = 1 /\ WithIf THEN \E s \in IfStmt : AddIf(s)
           ELSE IF w = 2 THEN \E v \in LateVars : AddDecl(v)
+          ELSE IF w = 3 /\ ~NoAssign THEN \E s \in Tuple : AddSimple(s)
           ELSE \E s \in Simple : AddSimple(s)
 Spec == Init /\ [][Next]_vars
 
